@@ -255,7 +255,28 @@ func macros(b []foStepJ) []macro {
 // drain releases whatever is parked (builders succeed, no faults) until nothing moves any more.  It is adversarial:
 // goroutines waiting to ENTER a builder or to reach one are released before goroutines about to LEAVE a builder, so that
 // a code base that lets two builds of one key run at once shows the overlap.
-func (r *foRun) drain() {
+func (r *foRun) drain() { r.drainUntil(false) }
+
+// pressure is applied at the FIRST deviation from the schedule: every call that has not started yet is started and
+// everything that is not about to leave a builder is let run as far as it gets, while the builders that are inside stay
+// inside.  If the deviation has opened a door (a lock released early, a call that no longer waits), a second builder
+// walks through it now and the monitors see the overlap.  On code that follows the model this never runs.
+func (r *foRun) pressure() {
+	for _, p := range r.cfg.Procs {
+		r.s.mu.Lock()
+		_, started := r.cancels[p]
+		r.s.mu.Unlock()
+
+		if !started {
+			r.startGet(p)
+			synctest.Wait()
+		}
+	}
+
+	r.drainUntil(true)
+}
+
+func (r *foRun) drainUntil(keepBuilders bool) {
 	for i := 0; i < 1000; i++ {
 		ps := r.s.anyParked()
 		if len(ps) == 0 {
@@ -275,6 +296,10 @@ func (r *foRun) drain() {
 		}
 
 		if pick == "" {
+			if keepBuilders {
+				return
+			}
+
 			pick = ps[0]
 		}
 
@@ -430,6 +455,8 @@ func (r *foRun) exec(b []foStepJ) {
 
 		if len(r.drift) > 0 {
 			drifted = true
+
+			r.pressure()
 		}
 	}
 }
